@@ -158,7 +158,10 @@ Inductive tscript :=
 | SStatus (code : Z)   (* the transport returns a response with this status *)
 | SErr                 (* the transport returns an error at once *)
 | SBlock               (* the transport blocks until its request context is done *)
-| SPanic.
+| SPanic
+| SBodyErr             (* status line + header arrive, then reading the body fails (broken
+                          connection, body larger than serverMaxBodySize) *)
+| SBodyBlock.          (* header arrives, the body then stalls until the request context is done *)
 
 Record pool := {
   pl_retry   : option policy;   (* retryWrapper *)
@@ -186,7 +189,22 @@ Definition attempt_outcome (pl : pool) (rq : request) (i : nat) : outcome :=
   | SBlock => if cancelled then OErr 499 RClientError
               else if pl_timeout pl then OErr 408 RTimeout else OHang
   | SPanic => OPanic
+  (* buildResponse fails -> serverPoolError{500, internalError}, whatever the context says *)
+  | SBodyErr => OErr 500 RInternalError
+  | SBodyBlock => if cancelled || pl_timeout pl then OErr 500 RInternalError else OHang
   end.
+
+(** does the attempt leave a backend response in spCtx.resp?  buildResponse publishes it
+    (spCtx.resp, SetOutputResponse) only after the payload has been fetched; the handler
+    closure resets spCtx.resp before every attempt *)
+Definition publishes (s : tscript) : bool :=
+  match s with SStatus _ => true | _ => false end.
+
+(** the response the client would get *)
+Inductive visible :=
+| VBackend (attempt : nat)   (* the backend response received by that attempt *)
+| VGateway (status : Z)      (* buildFailureResponse: made by the gateway, no backend header/payload *)
+| VNothing.
 
 Definition handler_trace (pl : pool) (rq : request) : list event :=
   match pl_retry pl with
@@ -209,7 +227,17 @@ Definition to_presult (o : option outcome) : presult :=
   | None => PPanic     (* nil error but no response: collectMetrics dereferences spCtx.resp == nil *)
   end.
 
-Record pool_out := { po_result : presult; po_attempts : nat; po_records : list bool }.
+Record pool_out := { po_result : presult; po_attempts : nat; po_records : list bool;
+                     po_visible : visible }.
+
+(** handle: the error's response is built by the gateway unless the LAST attempt left one *)
+Definition visible_of (rq : request) (inner : list event) : visible :=
+  let last := (n_attempts inner - 1)%nat in
+  match final_of inner with
+  | Some (ONil c) | Some (OErr c _) =>
+      if publishes (rq_script rq last) then VBackend last else VGateway c
+  | _ => VNothing
+  end.
 
 Definition pool_trace (pl : pool) (permitted : bool) (rq : request) : list cb_event :=
   if pl_cb pl then cb_wrap permitted (handler_trace pl rq)
@@ -224,7 +252,10 @@ Definition pool_handle (pl : pool) (permitted : bool) (rq : request) : pool_out 
                   then PResult RShortCircuited 503
                   else to_presult (final_of (inner_of tr));
      po_attempts := n_attempts (inner_of tr);
-     po_records := records_of tr |}.
+     po_records := records_of tr;
+     po_visible := if existsb (fun e => match e with CbReject => true | _ => false end) tr
+                   then VGateway 503
+                   else visible_of rq (inner_of tr) |}.
 
 (** a sequence of client requests against one pool whose breaker stays closed *)
 Definition pool_run (pl : pool) (rqs : list request) : list pool_out :=
